@@ -63,6 +63,16 @@ TEXTS['U4'] = ('S4', [('sec', 'ta', N('n1'), [('sec', 'tb', N('n2'), [('sec', 't
                                                                        ('kv', 'kb', 'v')]),
                                               ('kv', 'ka', 'w')])])
 
+# a case-SENSITIVE key type at the top (identifier) and another one in the section type (ipaddr-or-hostname):
+# the key component of a specifier is normalised by the addressed section's own key type, nothing else
+TEXTS['T5'] = ('S5', [('kv', 'Kc', 'v'), ('kv', 'Ka', 'x'),
+                      ('sec', 'ta', 'n1', [('kv', 'h1', '1')]),
+                      ('sec', 'ta', 'Kc', [])])
+SPECS_K = [
+    ('T5', [[W2, '=', V1]]), ('T5', [['Kc=', V1], ['kc=', V1]]), ('T5', [['n1/', W2, '=', V1]]),
+    ('T5', [['TA/H1=', V1], ['Ka=y']]), ('T5', [['kC/', W2, '=7']]),
+]
+
 # '%import' lines are carried as ('raw', line, None) items: rendered verbatim, never edited
 TEXTS['I1'] = ('I12', [('raw', '%import vfq_a', None),
                        ('sec', 'pa', 'n1', [('kv', 'ka', '1')]),
@@ -260,7 +270,7 @@ class C14(P.TextMixin, Harness):
     functions = ('ZConfig.cmdline.', 'ZConfig.loader._get_config_loader', 'ZConfig.matcher.',
                  'ZConfig.loader.', 'ZConfig.cfgparser.')
     assumptions = (
-        'texts T2, T4, T6, T7, I1 (concrete; I1 %import-s two generated component packages and has sections of imported types) and U2, U4 (section names and a key symbolic, so names may coincide with '
+        'texts T2, T4, T5 (case-sensitive key types), T6, T7, I1 (concrete; I1 %import-s two generated component packages and has sections of imported types) and U2, U4 (section names and a key symbolic, so names may coincide with '
         'each other or with type names), sections up to depth 3, schemas S2, S4, S6; '
         'override lists of 1-2 (thorough: up to 4) specifiers from the templates in vf/harness/c14.py',
         'override values with leading or trailing whitespace cannot be expressed as a text line and are '
@@ -281,7 +291,7 @@ class C14(P.TextMixin, Harness):
     def units(self, tier):
         us = [{'text': t, 'files': [['specs', specs]]}
               for t, specs in (SPECS_Q if tier == 'quick' else SPECS_T)]
-        for t, specs in SPECS_I:
+        for t, specs in SPECS_I + SPECS_K:
             us.append({'text': t, 'files': [['specs', specs]]})
         for t, specs in SPECS_I[:3]:
             us.append({'text': t, 'files': [['specs', specs]], 'same_loader': True})
